@@ -98,6 +98,8 @@ class Template:
         self.connects = []          # (a IR, b IR, gen frames, lineno)
         self.calls = []             # other call statements: (IR, gen frames, dsl frames, lineno)
         self.asserts = []
+        self.trys = []
+        self.yields = []
         self.conds = []
         self.returns = []
         self.unsupported = []       # (lineno, reason)
@@ -172,7 +174,21 @@ class Walker:
         return self.t
 
     def block(self, stmts):
-        for st in stmts:
+        for i, st in enumerate(stmts):
+            if isinstance(st, ast.If) and not st.orelse and st.body and isinstance(st.body[-1], ast.Continue) \
+                    and any(fr[0] == 'for' for fr in self.gen):
+                # `if c: ...; continue`  ==  the rest of the loop body runs under `not c`
+                cond = self.ex(st.test)
+                self.t.conds.append((cond, self.gen, st.lineno))
+                saved = self.gen
+                env0, bc0 = dict(self.env), dict(self.bind_ctx)
+                self.gen = saved + (('pyif', cond, True),)
+                self.block(st.body[:-1])
+                self.env, self.bind_ctx = env0, bc0
+                self.gen = saved + (('pyif', cond, False),)
+                self.block(stmts[i + 1:])
+                self.gen = saved
+                return
             self.stmt(st)
 
     # ---- statements ------------------------------------------------------------------------
@@ -213,6 +229,19 @@ class Walker:
             return
         if isinstance(st, ast.FunctionDef):
             return self.localdef(st)
+        if isinstance(st, ast.Try):
+            self.t.trys.append(([ast.unparse(h.type) if h.type is not None else "*" for h in st.handlers], self.gen, st.lineno))
+            saved = self.gen
+            self.gen = saved + (('try', st.lineno),)
+            self.block(st.body)
+            self.block(st.orelse)
+            self.gen = saved
+            for h in st.handlers:
+                self.gen = saved + (('except', ast.unparse(h.type) if h.type is not None else "*", st.lineno),)
+                self.block(h.body)
+            self.gen = saved
+            self.block(st.finalbody)
+            return
         if isinstance(st, (ast.Import, ast.ImportFrom)):
             return
         self.unsupported(st, f"statement kind {type(st).__name__} is not modelled")
@@ -246,8 +275,9 @@ class Walker:
                 return
             self.t.calls.append((self.ex(v), self.gen, self.dsl, st.lineno))
             return
-        if isinstance(v, (ast.Yield, ast.YieldFrom, ast.Await)):
-            self.unsupported(st, "yield in elaborate")
+        if isinstance(v, (ast.Yield, ast.YieldFrom)):
+            val = self.ex(v.value) if v.value is not None else ('const', None)
+            self.t.yields.append((val, isinstance(v, ast.YieldFrom), self.gen, st.lineno))
             return
         self.t.calls.append((self.ex(v), self.gen, self.dsl, st.lineno))
 
